@@ -196,10 +196,12 @@ def run_adv(seed: int, work: Path, trace_path: Path, *, steps: int = 40, mix: Op
         if part == "adv":
             gens.append(adv.Adversary(seed * 7 + k, label=f"Adversary{k}", emit=emit, kinds=kinds,
                                       p_instr=p_instr if p_instr is not None else rng.choice([0.25, 0.45, 0.7])))
+        elif part == "queue":
+            gens.append(adv.QueueDriver(seed * 7 + k, emit=emit))
         else:
             gens.extend(builtin_generators(rp.e, emit))
     rp = set_generators(rp, gens)
-    extra = {"builtin": "adv" not in parts, "scenario": f"adv{seed}", "mix": mix}
+    extra = {"builtin": all(p == "builtin" for p in parts), "scenario": f"adv{seed}", "mix": mix}
     if throttle:
         done = 0
         while done < steps:
